@@ -8,7 +8,7 @@ import (
 )
 
 func msgOp(name string, pred func(s *Schema, ml *MsgLoc) bool, apply func(s *Schema, ml *MsgLoc, site Site, r *hx.Rand) ([]Expect, bool)) *Op {
-	return &Op{Name: name, Kind: Breaking, Sites: func(s *Schema) []Site {
+	return &Op{Name: name, Kind: Breaking, KindOf: msgSiteKind, Sites: func(s *Schema) []Site {
 		return msgSites(s, func(ml *MsgLoc) bool { return pred(s, ml) })
 	}, Apply: func(s *Schema, site Site, r *hx.Rand) ([]Expect, bool) {
 		ml := s.Msg(site.Msg)
@@ -21,7 +21,7 @@ func msgOp(name string, pred func(s *Schema, ml *MsgLoc) bool, apply func(s *Sch
 }
 
 func enumOp(name string, pred func(s *Schema, el *EnumLoc) bool, apply func(s *Schema, el *EnumLoc, r *hx.Rand) ([]Expect, bool)) *Op {
-	return &Op{Name: name, Kind: Breaking, Sites: func(s *Schema) []Site {
+	return &Op{Name: name, Kind: Breaking, KindOf: enumSiteKind, Sites: func(s *Schema) []Site {
 		return enumSites(s, func(el *EnumLoc) bool { return pred(s, el) })
 	}, Apply: func(s *Schema, site Site, r *hx.Rand) ([]Expect, bool) {
 		el := s.EnumByName(site.Enum)
@@ -35,7 +35,7 @@ func enumOp(name string, pred func(s *Schema, el *EnumLoc) bool, apply func(s *S
 
 // subOp: an operator on a sub-element of a message; subs lists the sub-sites (Name / Num).
 func subOp(name string, subs func(s *Schema, ml *MsgLoc) []Site, apply func(s *Schema, ml *MsgLoc, site Site, r *hx.Rand) ([]Expect, bool)) *Op {
-	return &Op{Name: name, Kind: Breaking, Sites: func(s *Schema) []Site {
+	return &Op{Name: name, Kind: Breaking, KindOf: msgSiteKind, Sites: func(s *Schema) []Site {
 		var out []Site
 		for _, ml := range s.Msgs() {
 			ml := ml
@@ -56,7 +56,7 @@ func subOp(name string, subs func(s *Schema, ml *MsgLoc) []Site, apply func(s *S
 }
 
 func enumSubOp(name string, subs func(el *EnumLoc) []Site, apply func(s *Schema, el *EnumLoc, site Site, r *hx.Rand) ([]Expect, bool)) *Op {
-	return &Op{Name: name, Kind: Breaking, Sites: func(s *Schema) []Site {
+	return &Op{Name: name, Kind: Breaking, KindOf: enumSiteKind, Sites: func(s *Schema) []Site {
 		var out []Site
 		for _, el := range s.EnumsAll() {
 			el := el
@@ -181,7 +181,7 @@ func enumRefs(s *Schema, full string) int {
 }
 
 func deleteEnumValueOp(name string, resNum, resName bool) *Op {
-	return &Op{Name: name, Kind: Breaking, Sites: func(s *Schema) []Site {
+	return &Op{Name: name, Kind: Breaking, KindOf: enumSiteKind, Sites: func(s *Schema) []Site {
 		var out []Site
 		for _, el := range s.EnumsAll() {
 			for i, v := range el.E.Values {
@@ -411,6 +411,10 @@ func fileOptSites(s *Schema, pred func(f *File, name string, kind byte, o *Opt) 
 	return out
 }
 
+// fileOptSiteKind: the tracked option is the stratum, so that every FILE_SAME_<option> rule is
+// planted by every file-option operator.
+func fileOptSiteKind(s *Schema, site Site) string { return "option:" + site.Name }
+
 func trackedOpt(name string) (n int, kind byte, rule string) {
 	for _, t := range TrackedFileOptions {
 		if t.Name == name {
@@ -481,6 +485,115 @@ func canBecomeProto2(s *Schema, f *File) bool {
 		}
 	}
 	return true
+}
+
+type fieldAt struct {
+	ml *MsgLoc
+	fl *Field
+}
+
+// fileFields: every field declared in f: fields of its messages (all depths, groups included) and
+// its extension fields (pseudo location).
+func fileFields(s *Schema, f *File) []fieldAt {
+	var out []fieldAt
+	for _, ml := range fileMsgs(s, f) {
+		ml := ml
+		for _, fl := range ml.M.Fields {
+			out = append(out, fieldAt{&ml, fl})
+		}
+	}
+	for _, es := range s.extFields() {
+		es := es
+		if es.xl.F == f {
+			out = append(out, fieldAt{&MsgLoc{F: f, M: &Message{}, Ext: &es}, es.fl})
+		}
+	}
+	return out
+}
+
+// inheritingMsgFields: message-typed fields whose encoding follows the file default.
+func inheritingMsgFields(s *Schema, f *File) []fieldAt {
+	var out []fieldAt
+	for _, x := range fileFields(s, f) {
+		if x.fl.Ref == RefMsg && x.fl.Group == nil && x.fl.MapKey == "" && x.fl.Feature("message_encoding") == "" {
+			out = append(out, x)
+		}
+	}
+	return out
+}
+
+// inheritingStringFields: string fields (not map fields) whose UTF-8 validation follows the file.
+func inheritingStringFields(s *Schema, f *File) []fieldAt {
+	var out []fieldAt
+	for _, x := range fileFields(s, f) {
+		if x.fl.Ref == RefScalar && x.fl.Type == "string" && x.fl.Group == nil && x.fl.MapKey == "" && x.fl.Feature("utf8_validation") == "" {
+			out = append(out, x)
+		}
+	}
+	return out
+}
+
+// inheritedEnumExpect: the enum has no option of its own for the feature; when it has another
+// feature option the best-match option location may be that one (rule + file pinned only).
+func inheritedEnumExpect(rule string, el *EnumLoc) Expect {
+	e := eEnum(rule, el, "")
+	if el.E.EnumType != "" || el.E.JSONFormat != "" {
+		e.About, e.Locator = e.Locator, "anyin:"+el.F.Name
+	}
+	return e
+}
+
+// migrateProto2ToEditions rewrites f in place.
+func migrateProto2ToEditions(s *Schema, f *File) {
+	f.Syntax = "2023"
+	f.Features = nil
+	f.SetFeature("enum_type", "CLOSED")
+	f.SetFeature("utf8_validation", "NONE")
+	f.SetFeature("json_format", "LEGACY_BEST_EFFORT")
+	f.SetFeature("repeated_field_encoding", "EXPANDED")
+	var fix func(scope string, m *Message)
+	fixField := func(scope string, host *Message, fl *Field) {
+		switch fl.Label {
+		case "required":
+			fl.SetFeature("field_presence", "LEGACY_REQUIRED")
+			fl.Label = ""
+		case "optional":
+			fl.Label = ""
+		}
+		if fl.Packed == "true" {
+			fl.SetFeature("repeated_field_encoding", "PACKED")
+		}
+		fl.Packed = ""
+		if fl.Group != nil && host != nil {
+			gm := fl.Group
+			fl.Group = nil
+			host.Nested = append(host.Nested, gm)
+			fl.Type, fl.Ref = scope+gm.Name, RefMsg
+			fl.SetFeature("message_encoding", "DELIMITED")
+		}
+	}
+	fix = func(scope string, m *Message) {
+		inner := scope + m.Name + "."
+		for _, fl := range m.Fields {
+			fixField(inner, m, fl) // a group message moves to m.Nested
+		}
+		for _, x := range m.Extends {
+			for _, fl := range x.Fields {
+				fixField(inner, nil, fl)
+			}
+		}
+		for _, n := range m.Nested {
+			fix(inner, n)
+		}
+	}
+	for _, m := range f.Messages {
+		fix(f.prefix(), m)
+	}
+	for _, x := range f.Extends {
+		for _, fl := range x.Fields {
+			fixField(f.prefix(), nil, fl)
+		}
+	}
 }
 
 // BreakingOps is the whole catalogue.
@@ -566,7 +679,7 @@ func init() {
 			return []Expect{eMsg("MESSAGE_NO_REMOVE_STANDARD_DESCRIPTOR_ACCESSOR", ml, ":nsda")}, true
 		}),
 		msgOp("MessageJSONFormatLegacy", func(s *Schema, ml *MsgLoc) bool {
-			return ml.F.IsEditions() && ml.M.JSONFormat != "LEGACY_BEST_EFFORT"
+			return ml.F.IsEditions() && MsgJSONAllow(ml.F, ml.M)
 		}, func(s *Schema, ml *MsgLoc, _ Site, r *hx.Rand) ([]Expect, bool) {
 			ml.M.JSONFormat = "LEGACY_BEST_EFFORT"
 			return []Expect{eMsg("MESSAGE_SAME_JSON_FORMAT", ml, ":jsonformat")}, true
@@ -645,7 +758,7 @@ func init() {
 		deleteEnumValueOp("DeleteEnumValueReserveNumber", true, false),
 		deleteEnumValueOp("DeleteEnumValueReserveName", false, true),
 		deleteEnumValueOp("DeleteEnumValueReserveBoth", true, true),
-		{Name: "EnumValueRename", Kind: Breaking, Sites: func(s *Schema) []Site {
+		{Name: "EnumValueRename", Kind: Breaking, KindOf: enumSiteKind, Sites: func(s *Schema) []Site {
 			var out []Site
 			for _, el := range s.EnumsAll() {
 				for _, v := range el.E.Values {
@@ -667,7 +780,7 @@ func init() {
 		// ENUM_VALUE_SAME_NAME demands that every PREVIOUS name of a number still exists
 		// (slicesext.ElementsContained(names, previousNames)): removing one of several names of
 		// a number is reported at the number of every remaining name; adding a name is not.
-		{Name: "EnumRemoveAlias", Kind: Breaking, Sites: func(s *Schema) []Site {
+		{Name: "EnumRemoveAlias", Kind: Breaking, KindOf: enumSiteKind, Sites: func(s *Schema) []Site {
 			var out []Site
 			for _, el := range s.EnumsAll() {
 				for i, v := range el.E.Values {
@@ -716,14 +829,20 @@ func init() {
 			if !el.F.IsEditions() {
 				return false
 			}
-			if el.E.EnumType == "CLOSED" {
+			if !el.IsOpen() {
 				return el.E.Values[0].Num == 0
 			}
 			return true
 		}, func(s *Schema, el *EnumLoc, r *hx.Rand) ([]Expect, bool) {
-			if el.E.EnumType == "CLOSED" {
+			fileClosed := el.F.Feature("enum_type") == "CLOSED"
+			switch {
+			case !el.IsOpen() && fileClosed:
+				el.E.EnumType = "OPEN"
+			case !el.IsOpen():
 				el.E.EnumType = hx.Pick(r, []string{"", "OPEN"})
-			} else {
+			case fileClosed: // explicit OPEN so far
+				el.E.EnumType = hx.Pick(r, []string{"", "CLOSED"})
+			default:
 				el.E.EnumType = "CLOSED"
 			}
 			if el.E.EnumType == "" {
@@ -732,7 +851,7 @@ func init() {
 			return []Expect{eEnum("ENUM_SAME_TYPE", el, ":enumtype")}, true
 		}),
 		enumOp("EnumJSONFormatLegacy", func(s *Schema, el *EnumLoc) bool {
-			return el.F.IsEditions() && el.E.JSONFormat != "LEGACY_BEST_EFFORT"
+			return el.F.IsEditions() && EnumJSONAllow(el.F, el.E)
 		}, func(s *Schema, el *EnumLoc, r *hx.Rand) ([]Expect, bool) {
 			el.E.JSONFormat = "LEGACY_BEST_EFFORT"
 			return []Expect{eEnum("ENUM_SAME_JSON_FORMAT", el, ":jsonformat")}, true
@@ -808,7 +927,7 @@ func init() {
 		}),
 
 		// ---- extensions
-		{Name: "DeleteExtension", Kind: Breaking, Sites: func(s *Schema) []Site {
+		{Name: "DeleteExtension", Kind: Breaking, KindOf: fieldSiteKind, Sites: func(s *Schema) []Site {
 			var out []Site
 			for _, es := range s.extFields() {
 				out = append(out, Site{File: es.xl.F.Name, Name: extFull(es.xl, es.fl)})
@@ -821,7 +940,7 @@ func init() {
 			}
 			return deleteExtension(s, es), true
 		}},
-		{Name: "DeleteLastExtensionOfPackage", Kind: Breaking, Sites: func(s *Schema) []Site {
+		{Name: "DeleteLastExtensionOfPackage", Kind: Breaking, KindOf: fieldSiteKind, Sites: func(s *Schema) []Site {
 			var out []Site
 			for _, es := range s.extFields() {
 				if _, _, _, n := s.pkgCounts(es.xl.F.Package); n == 1 {
@@ -836,7 +955,7 @@ func init() {
 			}
 			return deleteExtension(s, es), true
 		}},
-		{Name: "ExtensionChangeType", Kind: Breaking, Sites: func(s *Schema) []Site {
+		{Name: "ExtensionChangeType", Kind: Breaking, KindOf: fieldSiteKind, Sites: func(s *Schema) []Site {
 			var out []Site
 			for _, es := range s.extFields() {
 				if es.fl.Ref == RefScalar {
@@ -1008,7 +1127,7 @@ func init() {
 			}
 			return exp, s.WellFormed()
 		}},
-		{Name: "FileOptionChange", Kind: Breaking, Sites: func(s *Schema) []Site {
+		{Name: "FileOptionChange", Kind: Breaking, KindOf: fileOptSiteKind, Sites: func(s *Schema) []Site {
 			return fileOptSites(s, func(f *File, name string, kind byte, o *Opt) bool { return o != nil })
 		}, Apply: func(s *Schema, site Site, r *hx.Rand) ([]Expect, bool) {
 			f := s.File(site.File)
@@ -1021,7 +1140,7 @@ func init() {
 			o.Val = v
 			return []Expect{eFile(rule, f, "opt"+num(n))}, true
 		}},
-		{Name: "FileOptionAdd", Kind: Breaking, Sites: func(s *Schema) []Site {
+		{Name: "FileOptionAdd", Kind: Breaking, KindOf: fileOptSiteKind, Sites: func(s *Schema) []Site {
 			return fileOptSites(s, func(f *File, name string, kind byte, o *Opt) bool { return o == nil })
 		}, Apply: func(s *Schema, site Site, r *hx.Rand) ([]Expect, bool) {
 			f := s.File(site.File)
@@ -1033,7 +1152,7 @@ func init() {
 			f.Options = append(f.Options, &Opt{site.Name, v})
 			return []Expect{eFile(rule, f, "opt"+num(n))}, true
 		}},
-		{Name: "FileOptionRemove", Kind: Breaking, Sites: func(s *Schema) []Site {
+		{Name: "FileOptionRemove", Kind: Breaking, KindOf: fileOptSiteKind, Sites: func(s *Schema) []Site {
 			return fileOptSites(s, func(f *File, name string, kind byte, o *Opt) bool {
 				return o != nil && o.Val != fileOptDefault(name, kind)
 			})
@@ -1047,6 +1166,109 @@ func init() {
 				}
 			}
 			return []Expect{eFileOnly(rule, f)}, true
+		}},
+		// ---- editions: file-level feature defaults, inherited by every element of the file
+		{Name: "FileToggleDelimited", Kind: Breaking, Sites: func(s *Schema) []Site {
+			return fileSites(s, func(f *File) bool { return f.IsEditions() && len(inheritingMsgFields(s, f)) > 0 })
+		}, Apply: func(s *Schema, site Site, r *hx.Rand) ([]Expect, bool) {
+			f := s.File(site.File)
+			old, nw := "message", "group"
+			if f.Feature("message_encoding") == "DELIMITED" {
+				old, nw = "group", "message"
+				f.SetFeature("message_encoding", hx.Pick(r, []string{"", "LENGTH_PREFIXED"}))
+			} else {
+				f.SetFeature("message_encoding", "DELIMITED")
+			}
+			var exp []Expect
+			for _, x := range inheritingMsgFields(s, f) {
+				exp = append(exp, typeExpects(x.ml, x.fl, old, nw)...)
+			}
+			return exp, true
+		}},
+		{Name: "FileToggleEnumType", Kind: Breaking, Sites: func(s *Schema) []Site {
+			return fileSites(s, func(f *File) bool {
+				if !f.IsEditions() {
+					return false
+				}
+				n := 0
+				for _, el := range s.EnumsAll() {
+					if el.F == f && el.E.EnumType == "" {
+						n++
+						if f.Feature("enum_type") == "CLOSED" && el.E.Values[0].Num != 0 {
+							return false // cannot become open
+						}
+					}
+				}
+				return n > 0
+			})
+		}, Apply: func(s *Schema, site Site, r *hx.Rand) ([]Expect, bool) {
+			f := s.File(site.File)
+			if f.Feature("enum_type") == "CLOSED" {
+				f.SetFeature("enum_type", hx.Pick(r, []string{"", "OPEN"}))
+			} else {
+				f.SetFeature("enum_type", "CLOSED")
+			}
+			var exp []Expect
+			for _, el := range s.EnumsAll() {
+				el := el
+				if el.F == f && el.E.EnumType == "" {
+					exp = append(exp, inheritedEnumExpect("ENUM_SAME_TYPE", &el))
+				}
+			}
+			return exp, s.WellFormed()
+		}},
+		{Name: "FileToggleUtf8Validation", Kind: Breaking, Sites: func(s *Schema) []Site {
+			return fileSites(s, func(f *File) bool { return f.IsEditions() && len(inheritingStringFields(s, f)) > 0 })
+		}, Apply: func(s *Schema, site Site, r *hx.Rand) ([]Expect, bool) {
+			f := s.File(site.File)
+			if f.Feature("utf8_validation") == "NONE" {
+				f.SetFeature("utf8_validation", hx.Pick(r, []string{"", "VERIFY"}))
+			} else {
+				f.SetFeature("utf8_validation", "NONE")
+			}
+			var exp []Expect
+			for _, x := range inheritingStringFields(s, f) {
+				e := eField("FIELD_SAME_UTF8_VALIDATION", x.ml, x.fl, "")
+				if len(x.fl.Features) > 0 {
+					// another feature of the field has a location: the best-match option
+					// location may be that one; pin rule + file only (About keeps the element)
+					e.About, e.Locator = e.Locator, "anyin:"+f.Name
+				}
+				exp = append(exp, e)
+			}
+			return exp, true
+		}},
+		{Name: "FileJSONFormatLegacy", Kind: Breaking, Sites: func(s *Schema) []Site {
+			return fileSites(s, func(f *File) bool { return f.IsEditions() && f.Feature("json_format") != "LEGACY_BEST_EFFORT" })
+		}, Apply: func(s *Schema, site Site, r *hx.Rand) ([]Expect, bool) {
+			f := s.File(site.File)
+			f.SetFeature("json_format", "LEGACY_BEST_EFFORT")
+			var exp []Expect
+			for _, ml := range fileMsgs(s, f) {
+				ml := ml
+				if ml.M.JSONFormat == "" {
+					exp = append(exp, eMsg("MESSAGE_SAME_JSON_FORMAT", &ml, ""))
+				}
+			}
+			for _, el := range s.EnumsAll() {
+				el := el
+				if el.F == f && el.E.JSONFormat == "" {
+					exp = append(exp, inheritedEnumExpect("ENUM_SAME_JSON_FORMAT", &el))
+				}
+			}
+			return exp, len(exp) > 0
+		}},
+		// proto2 -> edition 2023, faithfully: groups become delimited message fields, `required`
+		// becomes LEGACY_REQUIRED, closed enums / no UTF-8 validation / legacy JSON / expanded
+		// repeated fields are kept through file-level feature defaults.  Only the syntax changes.
+		{Name: "FileMigrateProto2ToEditions", Kind: Breaking, Sites: func(s *Schema) []Site {
+			return fileSites(s, func(f *File) bool { return f.IsProto2() && f.Opt("java_string_check_utf8") == nil })
+		}, Apply: func(s *Schema, site Site, r *hx.Rand) ([]Expect, bool) {
+			f := s.File(site.File)
+			migrateProto2ToEditions(s, f)
+			// SyntaxLocation() looks up path [12] only; the `edition = "2023";` statement is at
+			// [14], so the annotation carries the file but no element location (observation)
+			return []Expect{eFileOnly("FILE_SAME_SYNTAX", f)}, s.WellFormed()
 		}},
 		{Name: "FileJavaStringCheckUtf8", Kind: Breaking, Sites: func(s *Schema) []Site {
 			return fileSites(s, func(f *File) bool {
